@@ -10,7 +10,7 @@ From Coq Require Import ZifyBool.
 Definition clr (c : cfg) : cfg :=
   mkCfg (c_progress c) (c_transient c) (c_ovf c) (c_W c) (c_H c) None None (c_start_guarded c)
         (c_vis_unless_transient c) (c_restores_ovf c) (c_resets_shape c) (c_final_room c) (c_prog_crop c)
-        (c_catches_base c) (c_fault_base c).
+        (c_catches_base c) (c_fault_base c) (c_restores_in_finally c).
 
 Lemma clr_nofault : forall c, nofault (clr c).
 Proof. intros c. split; reflexivity. Qed.
@@ -91,7 +91,10 @@ Proof.
 Qed.
 
 (* after a raise: either everything needed to go on, or a stopped display with a correct screen *)
-Definition After (c : cfg) (s : st) : Prop := SInv c s \/ (SView c s /\ started s = false).
+(* a stopped display whose frame may still be on the screen (stop() raised before its new line) *)
+Definition Parked (c : cfg) (s : st) : Prop :=
+  SView c s /\ started s = false /\ hooks s = 0%nat /\ shape_ok s.
+Definition After (c : cfg) (s : st) : Prop := SInv c s \/ Parked c s.
 
 Lemma After_view : forall c s, After c s -> SView c s.
 Proof. intros c s [H|[H _]]; [now apply SInv_view|assumption]. Qed.
@@ -178,7 +181,13 @@ Proof.
       * split; [discriminate|]. split.
         -- intros _. right.
            destruct (emit_on_view c s2 (emit (set_flags s2 false (pred (hooks s2)) false) cursor_on)
-                       (SInv_view c s2 I2) eq_refl eq_refl eq_refl eq_refl eq_refl) as [V _]. split; [exact V|reflexivity].
+                       (SInv_view c s2 I2) eq_refl eq_refl eq_refl eq_refl eq_refl) as [V _].
+           destruct Hi as [A0 B0 C0 D0 E0]. rewrite Es in C0.
+           assert (Hg0 : g_live s = false) by (destruct (g_live s); [specialize (E0 eq_refl); congruence|reflexivity]).
+           split; [exact V|]. split; [reflexivity|]. split.
+           ++ cbn [fst emit set_flags hooks]. rewrite Q6. subst s1. cbn [emit set_flags hooks]. exact C0.
+           ++ unfold shape_ok. cbn [fst emit set_flags g_live shape g_shown]. rewrite Q4, Q7. subst s1.
+              cbn [emit set_flags g_live shape]. rewrite Hg0. exact Hsh.
         -- destruct (emit_on_view c s2 (emit (set_flags s2 false (pred (hooks s2)) false) cursor_on)
                        (SInv_view c s2 I2) eq_refl eq_refl eq_refl eq_refl eq_refl) as [_ M3].
            apply (movedk_trans c s s2); [exact M2|]. rewrite Q2 in M3. exact M3.
@@ -201,15 +210,24 @@ Proof.
     { unfold stop_s1. destruct (c_progress c); [repeat split|].
       destruct (c_vis_unless_transient c && c_transient c); repeat split. }
     destruct X as (X1 & X2 & X3 & X4).
-    set (s2 := after_refresh c s sr).
+    set (s2 := after_refresh c s sr true).
     assert (Y : out s2 = out s /\ g_printed s2 = g_printed s /\ g_shown s2 = g_shown s /\ g_live s2 = g_live s).
-    { subst s2. unfold after_refresh. destruct (c_restores_ovf c); cbn [set_ovf out g_printed g_shown g_live];
+    { subst s2. unfold after_refresh. destruct (restores c true); cbn [set_ovf out g_printed g_shown g_live];
         repeat split; congruence. }
     destruct Y as (Y1 & Y2 & Y3 & Y4).
     assert (V : SView c s) by (split; assumption).
     destruct (emit_on_view c s (emit (set_flags s2 false (pred (hooks s2)) false) cursor_on) V) as [V4 M4];
       cbn [emit set_flags out g_printed g_shown g_live started]; try congruence.
-    split; [discriminate|]. split; [intros _; right; split; [exact V4|reflexivity]|exact M4].
+    split; [discriminate|]. split; [|exact M4]. intros _. right. split; [exact V4|]. split; [reflexivity|].
+    assert (Z : hooks (stop_s1 c s) = hooks s /\ shape (stop_s1 c s) = shape s).
+    { unfold stop_s1. destruct (c_progress c); [split; reflexivity|].
+      destruct (c_vis_unless_transient c && c_transient c); split; reflexivity. }
+    destruct Z as [Z1 Z2].
+    assert (Y5 : hooks s2 = hooks s /\ shape s2 = shape s).
+    { subst s2. unfold after_refresh. destruct (restores c true); cbn [set_ovf hooks shape]; split; congruence. }
+    destruct Y5 as [Y5 Y6]. split.
+    + cbn [fst emit set_flags hooks]. rewrite Y5, C, Es. reflexivity.
+    + unfold shape_ok. cbn [fst emit set_flags g_live shape g_shown]. rewrite Y4, Y3, Y6. exact (D Es).
 Qed.
 
 Lemma step_f : forall c s o, SInv c s -> op_ok_f c s o = true -> Outc c s (Live.step c s o).
@@ -321,7 +339,7 @@ Proof.
     pose proof (run_f c body s1 (S1 eq_refl) Hbody) as (R1 & R2 & _).
     destruct (run_ops c s1 body) as [s2 r2]. cbn [fst snd] in *.
     assert (A2 : After c s2) by (destruct r2; [now apply R2|left; now apply R1]).
-    destruct A2 as [I2|[V2 E2]].
+    destruct A2 as [I2|(V2 & E2 & _)].
     + pose proof (stop_f c s2 I2 Hstop) as (T1 & T2 & _). destruct (stop c s2) as [s3 r3]. cbn [fst snd] in *.
       destruct r3; [apply After_view; now apply T2|apply SInv_view; now apply T1].
     + unfold stop. rewrite E2. cbn [negb fst]. exact V2.
@@ -329,7 +347,7 @@ Qed.
 
 (* non-vacuity: faults at every index of a history with tall frames, prints and logs *)
 Definition fx_cfg (progress tr : bool) (fr fb : option nat) : cfg :=
-  mkCfg progress tr OEllipsis 12 3 fr fb true true true true true true true true.
+  mkCfg progress tr OEllipsis 12 3 fr fb true true true true true true true true true.
 Definition fx_body : list op :=
   [Refresh; Print (w_lines 4); Update (w_lines 7) true; Log (w_lines 1); PrintRaise; Update [] false; Print (w_lines 1)].
 Example block_ok_nonvacuous :
